@@ -52,6 +52,14 @@ def Rep (s : St) : Nat → RTree → Prop
     p = q ∧ p ≠ 0 ∧ p < s.heap.size ∧ (s.nd p).key = k ∧ (s.nd p).val = v ∧
     Rep s (s.nd p).left l ∧ Rep s (s.nd p).right r
 
+instance decRep (s : St) : (p : Nat) → (t : RTree) → Decidable (Rep s p t)
+  | p, .leaf => inferInstanceAs (Decidable (p = 0))
+  | p, .node l q k v r =>
+    have := decRep s (s.nd p).left l
+    have := decRep s (s.nd p).right r
+    inferInstanceAs (Decidable (p = q ∧ p ≠ 0 ∧ p < s.heap.size ∧ (s.nd p).key = k ∧ (s.nd p).val = v ∧
+      Rep s (s.nd p).left l ∧ Rep s (s.nd p).right r))
+
 /-- binary-search-tree order of the keys -/
 def BST : RTree → Prop
   | .leaf => True
